@@ -191,7 +191,7 @@ def harness_run(binary, family, seed, tier, extra_args=None, timeout=3000):
 
 # ------------------------------------------------------------------ model evaluation in Coq
 
-def run_shards(pid, cases, workdir, preamble_extra="", with_rfc=False):
+def run_shards(pid, cases, workdir, preamble_extra="", with_rfc=False, kc_term="K_src"):
     """cases: list of (id, json) that have a Coq rendering. returns (mismatch_ids, shown_text, errors)"""
     os.makedirs(workdir, exist_ok=True)
     for f in glob.glob(os.path.join(workdir, "cases_*")):
@@ -223,21 +223,22 @@ def run_shards(pid, cases, workdir, preamble_extra="", with_rfc=False):
     def write_shard(k, items, show_ids=None):
         path = os.path.join(workdir, "cases_%d%s.v" % (k, "_show" if show_ids else ""))
         with open(path, "w") as fh:
-            fh.write("From HbsLms Require Import Base.Bytes Model.Consts Model.Lmots Exec.Runner.\n")
+            fh.write("From HbsLms Require Import Base.Bytes Model.Consts Model.Lmots Gen.Generated Exec.Runner.\n")
             fh.write(preamble_extra)
             fh.write("Local Open Scope N_scope.\n")
             fh.write(ctxs[k].preamble())
+            fh.write("Definition Kc : consts := %s.\n" % kc_term)
             fh.write("Definition cs : list (N * case) := [\n")
             fh.write(";\n".join("(%d, %s)" % (cid, term) for cid, term, _ in items))
             fh.write("\n].\n")
             if show_ids:
-                fh.write("Eval vm_compute in show_cases [%s] cs.\n" % "; ".join(str(i) for i in show_ids))
+                fh.write("Eval vm_compute in show_cases Kc [%s] cs.\n" % "; ".join(str(i) for i in show_ids))
             else:
                 fh.write('Goal True. idtac "@@RESULT". exact I. Qed.\n')
-                fh.write("Eval vm_compute in run_cases cs.\n")
+                fh.write("Eval vm_compute in run_cases Kc cs.\n")
                 if with_rfc:
                     fh.write('Goal True. idtac "@@RFC". exact I. Qed.\n')
-                    fh.write("Eval vm_compute in run_rfc cs.\n")
+                    fh.write("Eval vm_compute in run_rfc Kc cs.\n")
         return path
 
     def run_one(k):
@@ -372,7 +373,9 @@ def run_property(pid, tier, seed, replay=None):
     corr_cases = []
     oracle_items = []
     hb_errors = []
-    for fam in prop["families"]:
+    fams = list(prop["families"]) + (list(prop.get("thorough_families", [])) if tier == "thorough" else [])
+    prop = dict(prop, families=fams)
+    for fam in fams:
         config = fam.get("config", "default")
         rc, out, binary = harness_build(config, env=fam.get("env"), features=fam.get("features"))
         if rc != 0:
@@ -416,8 +419,19 @@ def run_property(pid, tier, seed, replay=None):
     mism_ids, shown, cerrors, rfc_ids = [], "", [], []
     obligations += 1
     if corr_cases and runner_ok:
-        mism_ids, shown, cerrors, rfc_ids = run_shards(pid, corr_cases, os.path.join(CACHE, "cases", pid),
-                                                       with_rfc=bool(prop.get("rfc")))
+        # one model instance per build configuration (C14): the cases of a configuration are evaluated
+        # under the constants of that configuration
+        kc_of = {fam.get("config", "default"): fam.get("kc", "K_src") for fam in prop["families"]}
+        groups = {}
+        for cid, it in corr_cases:
+            groups.setdefault(it.get("_config", "default"), []).append((cid, it))
+        for cfg_name, group in sorted(groups.items()):
+            m_ids, sh, cerr, r_ids = run_shards(pid, group, os.path.join(CACHE, "cases", pid, cfg_name),
+                                                with_rfc=bool(prop.get("rfc")), kc_term=kc_of.get(cfg_name, "K_src"))
+            mism_ids += m_ids
+            shown += sh
+            cerrors += cerr
+            rfc_ids += r_ids
         if cerrors:
             violations.append(("correspondence_engine", {"what": "model evaluation failed", "errors": cerrors}, True))
     elif corr_cases and not runner_ok:
@@ -450,6 +464,21 @@ def run_property(pid, tier, seed, replay=None):
                        "why": "the implementation's verdict differs from RFC 8554 section 6.3 (independent transcription evaluated in Coq)"})
             oracle_items.append(it)
         cov_rfc = len([1 for _, it in corr_cases if it["k"] == "verify"])
+    # 3c. the same input under different build configurations must give the same bytes (C14)
+    by_xid = {}
+    for it in all_items:
+        if "xid" in it and it["k"] in ("keygen", "sign", "lifetime"):
+            by_xid.setdefault(it["xid"], []).append(it)
+    for xid, its in sorted(by_xid.items()):
+        def outcome(it):
+            return json.dumps({k: it.get(k) for k in ("sk", "pk", "sig", "calls", "life")}, sort_keys=True)
+        oks = [it for it in its if any(isinstance(it.get(f), dict) and it[f].get("c") == "ok" for f in ("sk", "sig", "life"))]
+        if len({outcome(it) for it in oks}) > 1:
+            oracle_items.append({"k": "oracle", "name": "same_bytes_in_every_build", "ok": False, "xid": xid,
+                                 "configs": [it.get("_config") for it in oks],
+                                 "why": "builds with different limits produced different keys / signatures / lifetimes for the same input"})
+        elif len(oks) > 1:
+            oracle_items.append({"k": "oracle", "name": "same_bytes_in_every_build", "ok": True, "xid": xid})
     # 4. implementation-only property oracle
     obligations += 1
     bad_oracle = []
@@ -559,6 +588,17 @@ def setup():
         return 1
     rc, out, binary = harness_build("default")
     print(out[-1500:])
+    # the other build configurations used by quick checks (C14: HBS_LMS_* limits, C15: fast_verify)
+    seen = {"default"}
+    for pid, prop in sorted(PROPS.items()):
+        for fam in prop["families"]:
+            cfg = fam.get("config", "default")
+            if cfg in seen:
+                continue
+            seen.add(cfg)
+            rc2, out2, _ = harness_build(cfg, env=fam.get("env"), features=fam.get("features"))
+            log("harness configuration %s: rc=%d" % (cfg, rc2))
+            rc = rc or rc2
     log("setup done in %.1fs" % (time.time() - t0))
     return rc
 
